@@ -38,6 +38,8 @@ CASES = {
     'tetra-ab-2': ('tetra-ab', (0.9, 1.7), 2, (), 0, 1.01),
     'tetra-ab-3': ('tetra-ab', (0.9, 1.3), 3, (), 0, 1.01),
     'hcpoct-2': ('hcpoct', (0.5, 1.05), 2, (), 1, 0.75),
+    'omega-3': ('omega', (0.62, 0.75), 3, (), 0, 0.7),
+    'rect2-3': ('rect2', (0.6, 1.05), 3, (), 0, 0.9),
 }
 
 
@@ -72,6 +74,8 @@ def enumerate_case(case):
                 ENG.assume(core.Or(dd >= GUARD, dd <= -GUARD))
         with shim.symbolic_mode():
             clexp = cluster.makeclusters(crys, cutoff, order, exclude=exclude)
+        if sym:
+            ENG.require_feasible()
         obs = []
         info = src.info(replayer='clusters', extra={'case': case})
 
@@ -133,7 +137,33 @@ def enumerate_case(case):
         ob('TS-disjoint', len(set(cl for o in TS for cl in o)) == sum(len(o) for o in TS))
         ob('TS-reversal', all(cluster.Cluster([cl.sites[1], cl.sites[0]] + list(cl.sites[2:]), transition=True) in orbit
                               for orbit in TS for cl in orbit))
+        # ... and complete: every cluster with two mobile sites joined by a jump of the network gives the TS cluster of that jump
+        TSall = set(cl for o in TS for cl in o)
+        jumps = set()
+        for jl in jn:
+            for (i, j), dx in jl:
+                Rj = np.round(np.dot(crys.invlatt, dx) - crys.basis[chem][j] + crys.basis[chem][i]).astype(int)
+                jumps.add((i, j, tuple(int(x) for x in Rj)))
+        want_TS = set()
+        for cl in allcl:
+            for sa in cl.sites:
+                for sb in cl.sites:
+                    if sa is sb or sa.ci[0] != chem or sb.ci[0] != chem:
+                        continue
+                    if (sa.ci[1], sb.ci[1], tuple(int(x) for x in (sb.R - sa.R))) in jumps:
+                        rest = [s for s in cl.sites if s is not sa and s is not sb]
+                        want_TS.add(cluster.Cluster([sa, sb] + rest, transition=True))
+        ob('TS-complete', all(t in TSall for t in want_TS))
+        ob('TS-no-extras', all(t in want_TS for t in TSall))
         VC = cluster.makeVacancyClusters(crys, chem, clexp)
+        VCall = set(cl for o in VC for cl in o)
+        want_V = set()
+        for cl in allcl:
+            for sa in cl.sites:
+                if sa.ci[0] == chem:
+                    want_V.add(cluster.Cluster([sa] + [s for s in cl.sites if s is not sa], vacancy=True))
+        ob('vacancy-complete', all(v in VCall for v in want_V))
+        ob('vacancy-no-extras', all(v in want_V for v in VCall))
         ob('vacancy-closed', all(cl.g(crys, g) in orbit for orbit in VC for cl in orbit for g in crys.G))
         ob('vacancy-disjoint', len(set(cl for o in VC for cl in o)) == sum(len(o) for o in VC))
         if sym:
@@ -148,7 +178,7 @@ def _agree(member, present, sym):
     return bool(member) == present
 
 
-QUICK = ['fcc-3', 'b2-3', 'b2-excl', 'square-3', 'tetra-ab-2', 'hcpoct-2']
+QUICK = ['fcc-3', 'b2-3', 'b2-excl', 'square-3', 'tetra-ab-2', 'hcpoct-2', 'omega-3', 'rect2-3']
 THOROUGH = QUICK + ['hcp-2', 'tetra-ab-3']
 
 
